@@ -15,7 +15,10 @@
    an execution layer whose ExecuteTxs succeeds and is deterministic (other cases are C01/C04/C08's subject).
 
    Every action returns the ordered list of its atomic datastore writes, interleaved with the one external
-   effect (ExecuteTxs reaching the execution layer); a crash keeps a prefix (DESIGN 2.5).
+   effect (ExecuteTxs reaching the execution layer); a crash keeps a prefix (DESIGN 2.5); a transient write
+   FAULT ([fault]: the k-th write attempt of the action returns an error once, the process lives on) either is
+   swallowed by the code (logged / printed: the queue delete, the cursor write, a seen mark) and the action goes
+   on, or ends the action with the error.
    Definitions only; proofs are in Proofs/ReaperProofs.v. *)
 From Coq Require Import NArith ZArith List Bool Arith.
 Import ListNotations.
@@ -30,7 +33,11 @@ Record st := {
   up : bool;                 (* a node process is running *)
   mem : list tx;             (* the execution layer's mempool, arrival order (another process: survives crashes) *)
   seen : list tx;            (* durable: the reaper's seen-set, keys /0/<sha256(tx)> *)
-  queue : list batch;        (* durable (and, in a running node, in memory): the sequencer's queue, /batches/... *)
+  queue : list batch;        (* the sequencer's queue: in a running node the in-memory queue, each batch with its record
+                                under /batches/...; in a stopped node the records that are not [stale] *)
+  stale : list batch;        (* durable: records under /batches/ of batches the running process has already handed out
+                                (their Delete failed, queue.go:107-111); older than every record of [queue]; the next
+                                start-up loads them again, in front (queue.go Load, key order) *)
   blocks : list blk;         (* durable: the block records of heights 1, 2, ... *)
   sh : nat;                  (* durable: LastBlockHeight of the state record /0/s (0 = no record) *)
   th : nat;                  (* durable: the store height /0/t *)
@@ -39,26 +46,28 @@ Record st := {
 }.
 
 Definition st0 : st :=
-  {| up := false; mem := []; seen := []; queue := []; blocks := []; sh := 0; th := 0; taken := []; released := [] |}.
+  {| up := false; mem := []; seen := []; queue := []; stale := []; blocks := []; sh := 0; th := 0; taken := []; released := [] |}.
 
 Definition set_up (v : bool) (s : st) : st :=
-  {| up := v; mem := mem s; seen := seen s; queue := queue s; blocks := blocks s; sh := sh s; th := th s; taken := taken s; released := released s |}.
+  {| up := v; mem := mem s; seen := seen s; queue := queue s; stale := stale s; blocks := blocks s; sh := sh s; th := th s; taken := taken s; released := released s |}.
 Definition set_mem (v : list tx) (s : st) : st :=
-  {| up := up s; mem := v; seen := seen s; queue := queue s; blocks := blocks s; sh := sh s; th := th s; taken := taken s; released := released s |}.
+  {| up := up s; mem := v; seen := seen s; queue := queue s; stale := stale s; blocks := blocks s; sh := sh s; th := th s; taken := taken s; released := released s |}.
 Definition set_seen (v : list tx) (s : st) : st :=
-  {| up := up s; mem := mem s; seen := v; queue := queue s; blocks := blocks s; sh := sh s; th := th s; taken := taken s; released := released s |}.
+  {| up := up s; mem := mem s; seen := v; queue := queue s; stale := stale s; blocks := blocks s; sh := sh s; th := th s; taken := taken s; released := released s |}.
 Definition set_queue (v : list batch) (s : st) : st :=
-  {| up := up s; mem := mem s; seen := seen s; queue := v; blocks := blocks s; sh := sh s; th := th s; taken := taken s; released := released s |}.
+  {| up := up s; mem := mem s; seen := seen s; queue := v; stale := stale s; blocks := blocks s; sh := sh s; th := th s; taken := taken s; released := released s |}.
+Definition set_stale (v : list batch) (s : st) : st :=
+  {| up := up s; mem := mem s; seen := seen s; queue := queue s; stale := v; blocks := blocks s; sh := sh s; th := th s; taken := taken s; released := released s |}.
 Definition set_blocks (v : list blk) (s : st) : st :=
-  {| up := up s; mem := mem s; seen := seen s; queue := queue s; blocks := v; sh := sh s; th := th s; taken := taken s; released := released s |}.
+  {| up := up s; mem := mem s; seen := seen s; queue := queue s; stale := stale s; blocks := v; sh := sh s; th := th s; taken := taken s; released := released s |}.
 Definition set_sh (v : nat) (s : st) : st :=
-  {| up := up s; mem := mem s; seen := seen s; queue := queue s; blocks := blocks s; sh := v; th := th s; taken := taken s; released := released s |}.
+  {| up := up s; mem := mem s; seen := seen s; queue := queue s; stale := stale s; blocks := blocks s; sh := v; th := th s; taken := taken s; released := released s |}.
 Definition set_th (v : nat) (s : st) : st :=
-  {| up := up s; mem := mem s; seen := seen s; queue := queue s; blocks := blocks s; sh := sh s; th := v; taken := taken s; released := released s |}.
+  {| up := up s; mem := mem s; seen := seen s; queue := queue s; stale := stale s; blocks := blocks s; sh := sh s; th := v; taken := taken s; released := released s |}.
 Definition set_taken (v : list tx) (s : st) : st :=
-  {| up := up s; mem := mem s; seen := seen s; queue := queue s; blocks := blocks s; sh := sh s; th := th s; taken := v; released := released s |}.
+  {| up := up s; mem := mem s; seen := seen s; queue := queue s; stale := stale s; blocks := blocks s; sh := sh s; th := th s; taken := v; released := released s |}.
 Definition set_released (v : list batch) (s : st) : st :=
-  {| up := up s; mem := mem s; seen := seen s; queue := queue s; blocks := blocks s; sh := sh s; th := th s; taken := taken s; released := v |}.
+  {| up := up s; mem := mem s; seen := seen s; queue := queue s; stale := stale s; blocks := blocks s; sh := sh s; th := th s; taken := taken s; released := v |}.
 
 Definition memb (t : tx) (l : list tx) : bool := existsb (N.eqb t) l.
 
@@ -71,7 +80,8 @@ Inductive wr :=
 | WState (n : nat)           (* store.UpdateState *)
 | WHeight (n : nat)          (* store.SetHeight (only issued when the height grows) *)
 | WSeen (t : tx)             (* reaper.go: seenStore.Put(hash(tx), 1) *)
-| WOther.                    (* never produced by the model; lets the harness print an unexpected write *)
+| WOther                     (* never produced by the model; lets the harness print an unexpected write *)
+| WFail (w : wr).            (* the attempt of write [w] that returned an error: nothing reached the datastore *)
 
 (* the record of height n is index n-1; a Put at an existing height replaces, else it is the next record *)
 Fixpoint set_nth {A} (n : nat) (x : A) (l : list A) : list A :=
@@ -85,6 +95,10 @@ Definition apply_wr (s : st) (w : wr) : st :=
   match w with
   | WQPut b => set_queue (queue s ++ [b]) s
   | WQDel b => set_released (released s ++ [b]) (set_queue (tl (queue s)) s)
+  (* queue.go:100-111: Next takes the head off the in-memory queue BEFORE the Delete and only prints a Delete error:
+     the batch is handed out, its record stays *)
+  | WFail (WQDel b) => set_released (released s ++ [b]) (set_queue (tl (queue s)) (set_stale (stale s ++ [b]) s))
+  | WFail _ => s
   | WMeta | WOther => s
   | WBlock n txs t sg => set_blocks (set_nth (pred n) {| b_txs := txs; b_time := t; b_signed := sg |} (blocks s)) s
   | WState n => set_sh n s
@@ -119,6 +133,27 @@ Fixpoint cut (k : nat) (e : bool) (l : list act) : list act :=
   | AW w :: r => match k with O => [] | S k' => AW w :: cut k' e r end
   end.
 
+(* ---- a transient write fault: the k-th write attempt of the action returns an error, once -------------------------- *)
+(* which errors the code swallows and goes on: queue.go:107-111 (Delete of the handed-out record: printed),
+   manager.go:585-587 (SetMetadata(LastBatchDataKey): logged), reaper.go:113-115 (seenStore.Put: logged).
+   Every other write error is returned: queue.go:85-87 -> sequencer.go SubmitBatchTxs -> reaper.go:105-108 (nothing
+   is marked); manager.go:699-701, 739-742 (SaveBlockData), 749-751 (updateState), 755-757 (SetHeight);
+   NewManager / getInitialState (the node does not start). *)
+Definition swallowed (w : wr) : bool :=
+  match w with WQDel _ | WMeta | WSeen _ => true | _ => false end.
+
+(* the acts that take effect, and whether the action ended with the store error; an ExecuteTxs call placed before
+   the failing write has happened *)
+Fixpoint fault (k : nat) (l : list act) : list act * bool :=
+  match l with
+  | [] => ([], false)
+  | AExec x :: r => let '(r', e) := fault k r in (AExec x :: r', e)
+  | AW w :: r => match k with
+                 | S k' => let '(r', e) := fault k' r in (AW w :: r', e)
+                 | O => if swallowed w then (AW (WFail w) :: r, false) else ([AW (WFail w)], true)
+                 end
+  end.
+
 (* ---- start-up: NewSequencer (Load) + NewManager + NewReaper ---------------------------------------------- *)
 (* manager.go:176-249: no state record -> InitChain, save the genesis block at the initial height (1);
    manager.go:316 + store.go SetHeight: raise the store height to the state's height (a write only if it grows) *)
@@ -149,7 +184,7 @@ Definition reap_acts (max : N) (s : st) : list act :=
   end.
 
 (* ---- Manager.publishBlockInternal, manager.go:598-765 --------------------------------------------------------- *)
-Inductive outcome := OCommitted | OSkipped | OErrTime | OErrLoad.
+Inductive outcome := OCommitted | OSkipped | OErrTime | OErrLoad | OErrValidate.
 
 (* batchData.Before(lastHeaderTime), manager.go:667/679; below the initial height there is no last header *)
 Definition before (ts : Z) (lt : option Z) : bool := match lt with Some l => (ts <? l)%Z | None => false end.
@@ -170,7 +205,11 @@ Definition produce_acts (ts : Z) (s : st) : list act * outcome :=
   | Some lt =>
       match nth_error (blocks s) h with
       | Some pb =>                                               (* manager.go:654-658 "using pending block" *)
-          (commit_tail (S h) (b_txs pb) (b_time pb), OCommitted)
+          (* m.lastState is the state record (sync.go updateState writes both, start-up loads it); when its height
+             is above the store height (the SetHeight of the last step failed, the process lived on) the pending
+             block is executed and then fails manager.go:727 Validate -> execValidate "invalid height" *)
+          if sh s =? h then (commit_tail (S h) (b_txs pb) (b_time pb), OCommitted)
+          else ([AExec (b_txs pb)], OErrValidate)
       | None =>
           match queue s with                                     (* retrieveBatch, manager.go:554-589 *)
           | [] =>                                                (* queue.go:100-102: a batch without transactions, no delete *)
@@ -188,12 +227,14 @@ Inductive action := ABoot | AReap | AProduce (ts : Z).
 Inductive item :=
 | IArrive (t : tx)                              (* a transaction enters the mempool (node up or down) *)
 | IRun (a : action)                             (* the action runs to completion *)
-| ICrash (a : action) (k : nat) (e : bool).     (* the process dies inside the action after k of its writes *)
+| ICrash (a : action) (k : nat) (e : bool)      (* the process dies inside the action after k of its writes *)
+| IFault (a : action) (k : nat).                (* write attempt number k (from 0) of the action returns an error;
+                                                   the process lives on (a start-up that fails leaves no process) *)
 
 (* result codes as the harness prints them: 1 boot-ok 2 reaped 3 committed 4 skipped 5 e-time 6 not-running
-   7 crashed 8 e-load *)
+   7 crashed 8 e-load 9 e-store (the step returned the injected write error) 10 e-validate 11 boot-failed *)
 Definition code_of (o : outcome) : N :=
-  match o with OCommitted => 3 | OSkipped => 4 | OErrTime => 5 | OErrLoad => 8 end%N.
+  match o with OCommitted => 3 | OSkipped => 4 | OErrTime => 5 | OErrLoad => 8 | OErrValidate => 10 end%N.
 
 Definition acts_of (max : N) (gt : Z) (s : st) (a : action) : list act * N :=
   match a with
@@ -202,10 +243,18 @@ Definition acts_of (max : N) (gt : Z) (s : st) (a : action) : list act * N :=
   | AProduce ts => if up s then (let '(l, o) := produce_acts ts s in (l, code_of o)) else ([], 6%N)
   end.
 
-(* reaper.go:74: GetTxs — what it returns has been "taken from the mempool" *)
+(* the same under a write fault; SubmitTxs returns nothing, so a reap has the same result whatever failed *)
+Definition fault_acts_of (max : N) (gt : Z) (s : st) (a : action) (k : nat) : list act * N :=
+  let '(l, c) := acts_of max gt s a in
+  let '(l', e) := fault k l in
+  (l', if e then match a with ABoot => 11%N | AReap => 2%N | AProduce _ => 9%N end else c).
+
+(* reaper.go:74: GetTxs — what it returns has been "taken from the mempool";
+   sequencer.go NewSequencer -> queue.go Load: every record under /batches, in key order = acceptance order *)
 Definition pre (s : st) (a : action) : st :=
   match a with
   | AReap => if up s then set_taken (taken s ++ mem s) s else s
+  | ABoot => set_queue (stale s ++ queue s) (set_stale [] s)
   | _ => s
   end.
 
@@ -215,6 +264,7 @@ Definition item_acts (max : N) (gt : Z) (s : st) (it : item) : list act :=
   | IArrive _ => []
   | IRun a => fst (acts_of max gt s a)
   | ICrash a k e => cut k e (fst (acts_of max gt s a))
+  | IFault a k => fst (fault_acts_of max gt s a k)
   end.
 
 Definition step (max : N) (gt : Z) (s : st) (it : item) : st :=
@@ -224,6 +274,9 @@ Definition step (max : N) (gt : Z) (s : st) (it : item) : st :=
       let s' := apply_acts (pre s a) (item_acts max gt s it) in
       match a with ABoot => set_up true s' | _ => s' end
   | ICrash a k e => set_up false (apply_acts (pre s a) (item_acts max gt s it))
+  | IFault a k =>
+      let s' := apply_acts (pre s a) (item_acts max gt s it) in
+      match a with ABoot => set_up (negb (snd (fault k (boot_acts gt s)))) s' | _ => s' end
   end.
 
 (* what the harness observes of an item: result code, writes that reached the datastore *)
@@ -232,6 +285,7 @@ Definition observe (max : N) (gt : Z) (s : st) (it : item) : N * list wr :=
   | IArrive _ => (0%N, [])
   | IRun a => (snd (acts_of max gt s a), writes_of (item_acts max gt s it))
   | ICrash a k e => ((if (snd (acts_of max gt s a) =? 6)%N then 6%N else 7%N), writes_of (item_acts max gt s it))
+  | IFault a k => (snd (fault_acts_of max gt s a k), writes_of (item_acts max gt s it))
   end.
 
 Fixpoint run (max : N) (gt : Z) (s : st) (h : list item) : st :=
@@ -252,10 +306,12 @@ Definition quiescedb (s : st) : bool :=
   (match nth_error (blocks s) (th s) with None => true | Some _ => false end) &&
   (match new_txs s with [] => true | _ => false end).
 
-(* ---- the guard of the _partial theorem: no batch is released without its block being saved in the same action
+(* ---- the guard of the _partial theorem: no batch is handed out without its block being saved in the same action
         (F12: the action ends with an error after the delete; F13: the process dies after the delete and before
-        the early save) ------------------------------------------------------------------------------------------- *)
-Definition has_del (l : list act) : bool := existsb (fun a => match a with AW (WQDel _) => true | _ => false end) l.
+        the early save; and the write fault in the same window: the early save itself fails) ------------------------ *)
+Definition is_del (a : act) : bool :=
+  match a with AW (WQDel _) | AW (WFail (WQDel _)) => true | _ => false end.
+Definition has_del (l : list act) : bool := existsb is_del l.
 Definition has_block (l : list act) : bool := existsb (fun a => match a with AW (WBlock _ _ _ _) => true | _ => false end) l.
 Definition lossy (l : list act) : bool := has_del l && negb (has_block l).
 
@@ -267,6 +323,8 @@ Fixpoint safe_hist (max : N) (gt : Z) (s : st) (h : list item) : bool :=
 
 Definition is_crash (it : item) : bool := match it with ICrash _ _ _ => true | _ => false end.
 Definition crash_free (h : list item) : bool := forallb (fun it => negb (is_crash it)) h.
+Definition is_fault (it : item) : bool := match it with IFault _ _ => true | _ => false end.
+Definition fault_free (h : list item) : bool := forallb (fun it => negb (is_fault it)) h.
 
 (* the two causes, separately (for the witnesses of the _refuted theorem) *)
 Fixpoint clock_monotone (max : N) (gt : Z) (s : st) (h : list item) : bool :=
@@ -274,7 +332,7 @@ Fixpoint clock_monotone (max : N) (gt : Z) (s : st) (h : list item) : bool :=
   | [] => true
   | it :: r =>
       (match it with
-       | IRun (AProduce ts) | ICrash (AProduce ts) _ _ =>
+       | IRun (AProduce ts) | ICrash (AProduce ts) _ _ | IFault (AProduce ts) _ =>
            negb (up s && before ts (match th s with O => None | S k => option_map b_time (nth_error (blocks s) k) end))
        | _ => true
        end) && clock_monotone max gt (step max gt s it) r
